@@ -213,7 +213,7 @@ func (a *ActionVars) String() string {
 		ret = append(ret, fmt.Sprintf("%v:%v", k, v))
 	}
 	sort.Strings(ret)
-	return fmt.Sprintf("{#%v %v %#v->%v d=%v}", a.MaxPos-1, ret, a.Types, a.LHSType, a.Delta)
+	return fmt.Sprintf("{#%v/%v %v %#v->%v d=%v}", a.MaxPos-1, a.SymRefCount, ret, a.Types, a.LHSType, a.Delta)
 }
 
 // ClassAction resolves class terminals into more specific tokens (such as keywords).
